@@ -60,7 +60,7 @@ TESTED_NOT_PROVED = ["prune_automorphisms=True: WHICH mapping represents a host 
                      "derived views of a matcher object (mappings, num_mappings, mapping_direction, iteration, repr, repeated and re-ordered "
                      "get_mappings reads, reads after the caller edited earlier results): checked by the adapter against the stored result "
                      "after every step of every history"]
-LEVEL_TEXT = ("Machine-checked proof (Coq, 26 theorems in coq/props/C12.v, all closed under the global context) over an executable model "
+LEVEL_TEXT = ("Machine-checked proof (Coq, 27 theorems in coq/props/C12.v, all closed under the global context) over an executable model "
               "of MCSMatcher._search_subgraphs / _prune_graph / _prepare_orientation / find_common_subgraph / get_mappings (both copies of "
               "the matcher), for all pairs of graphs with distinct node ids: every returned mapping (both modes, all three directions, after "
               "orientation swap and wildcard pruning) is a function, injective, label-preserving, and preserves presence AND order of every "
@@ -264,6 +264,8 @@ def _sub(case, st):
         d["mode"] = st["call"]
     if st.get("call") == "rc_side" and st.get("component"):
         d["mode"] = "component"
+    if st.get("call") == "rc_side" and st.get("mol"):
+        d["mode"] = "mcs_mol"
     return d
 
 
@@ -351,6 +353,8 @@ def _run_history(case):
             if variant == "mtg":
                 r = M.find_rc_mapping(its1, its2, mcs=st["mcs"])        # MTG copy: always right side of rc1 vs left side of rc2
                 assert r is None
+            elif st.get("mol"):
+                r = M.find_rc_mapping(its1, its2, side=st["side"], mcs=st["mcs"], mcs_mol=True, component=False)
             elif st.get("positional"):
                 r = M.find_rc_mapping(its1, its2, side=st["side"], mcs=st["mcs"], component=st.get("component", False))
             else:
@@ -1162,8 +1166,12 @@ def _rc_side_histories(rng, n):
             g1, g2 = {"r": (r1, r2), "l": (l1, l2), "op": (r1, l2)}[side]
             steps.append(dict(g1=g1, g2=g2, its1=its1, its2=its2, side=side, mcs=rng.random() < 0.8, call="rc_side",
                               component=variant == "matcher" and rng.random() < 0.4, positional=rng.random() < 0.5,
+                              mol=False,
                               upper=rng.random() < 0.3,
                               reads=[rng.choice(_DIRS) for _ in range(rng.randint(1, 3))]))
+        for st in steps:         # mcs_mol=True forwarded through the facade (component=False)
+            if st.get("call") == "rc_side" and variant == "matcher" and not st["component"] and rng.random() < 0.3:
+                st["mol"] = True
         out.append(_hist_case("history/rc-sides", variant, [cfg], steps))
     return out
 
